@@ -38,8 +38,21 @@ Load ==
   /\ UNCHANGED <<depth, trans, registered, flag, prot, frozenAt, consistent,
                  ntok, exc, blob, target>>
 
+\* the actions of BasisManager, named so that simulated behaviours carry them
+Keep2 == UNCHANGED <<blob, target>>
+SCreate(o) == Create(o) /\ Keep2
+SAccess(o) == Access(o) /\ Keep2
+SProtect(o) == Protect(o) /\ Keep2
+SUnprotect(o) == Unprotect(o) /\ Keep2
+SEnter(op) == Enter(op) /\ Keep2
+SExit == Exit /\ Keep2
+SRaise == Raise /\ Keep2
+SCatch == Catch /\ Keep2
+
 SLNext ==
-  \/ (Next /\ UNCHANGED <<blob, target>>)
+  \/ \E o \in Objs : SCreate(o) \/ SAccess(o) \/ SProtect(o) \/ SUnprotect(o)
+  \/ \E op \in CtxOps : SEnter(op)
+  \/ SExit \/ SRaise \/ SCatch
   \/ \E o \in Objs : Save(o)
   \/ Load
 
